@@ -523,6 +523,16 @@ async fn proto5(
     ctx.emit(Ev::new("h_start").k(k).s(h).id(id));
     let g = Guard { ctx: ctx.clone(), h, done: Cell::new(false) };
     let out = ctx.outcome(h, ctx.gate_proto.get(), false).await;
+    if out.res == "send" {
+        let sk = match &*ctx.sink.borrow() {
+            SinkH::V5(sk) => Some(sk.clone()),
+            _ => None,
+        };
+        if let Some(sk) = sk {
+            let r = sk.publish("t").send_at_least_once(Bytes::from_static(b"x")).await;
+            ctx.emit(Ev::new("h_send").s(h).k(if r.is_ok() { "ok" } else { "failed" }));
+        }
+    }
     g.done.set(true);
     ctx.emit(Ev::new("h_end").s(h).k(out.res.clone()).r(out.code));
     match out.res.as_str() {
@@ -695,6 +705,18 @@ async fn proto3(
     ctx.emit(Ev::new("h_start").k(k).s(h).id(id));
     let g = Guard { ctx: ctx.clone(), h, done: Cell::new(false) };
     let out = ctx.outcome(h, ctx.gate_proto.get(), false).await;
+    if out.res == "send" {
+        // the handler publishes through the sink and waits for the acknowledgement before it answers: it ends
+        // when the peer acknowledges - or when the connection goes down and the send fails
+        let sk = match &*ctx.sink.borrow() {
+            SinkH::V3(sk) => Some(sk.clone()),
+            _ => None,
+        };
+        if let Some(sk) = sk {
+            let r = sk.publish("t").send_at_least_once(Bytes::from_static(b"x")).await;
+            ctx.emit(Ev::new("h_send").s(h).k(if r.is_ok() { "ok" } else { "failed" }));
+        }
+    }
     g.done.set(true);
     ctx.emit(Ev::new("h_end").s(h).k(out.res.clone()).r(out.code));
     match out.res.as_str() {
